@@ -109,6 +109,13 @@ var properties = map[string]Prop{
 		Rule:        "all 36 unordered pairs (plus 6 triples) of API thread bodies {System.ActorOf, Kill, Tell, Ask+Result, FindActor/ParseRef, event-stream Subscribe/Publish/Unsubscribe, Future.PipeTo/Close on a shared future, ActorRef Clone/Equals/String/Tell on a shared reference} x lifecycle transition racing them {root child (with a child of its own) killed, failing and stopped, failing and restarted}, explored at sync/atomic granularity with delay bounding and the happens-before race detector on (reads/writes of every struct field and map of the vivid packages are tracked); oracle: no data race, no crash, registry == union of children tables, nobody reported terminated twice, no stuck call, System.Stop afterwards empties the registry; distinct_nontrivial = distinct final registries per scenario",
 		Assumptions: schedAssumptions,
 	},
+	"C12": {
+		Parts:       []Part{{Harness: "c12"}},
+		Level:       "exploration",
+		QuickBudget: 120, ThoroughBudget: 600,
+		Rule:        "for every name in the wire registry (the harness fails if a registered name has no generator): the cross product of small field domains (strings {empty, 1 char, 300 bytes, non-ASCII}, integers {0, 1, -1, min, max}, times {epoch, now, max UnixNano}, maps {nil, empty, 2 entries}, nested messages {OnLaunch, user-registered type, user-codec type, nested PipeResult, Ping}, errors {nil, registered, re-worded, foreign, wrapped}, references {nil, local, remote, future}, cluster views / node states with extreme counters) is written and read back (a) through the registered writer/reader with the reader position checked, (b) nested through WriteMessage/ReadMessage, (c) inside an envelope for system flag x 4 senders x 3 receivers; plus every supported primitive / slice / array / struct shape with boundary values in value and pointer form; plus encode-encode-decode and decode-after-failure sequences; a case is one (type, value, route) triple, all distinct",
+		Assumptions: []string{"equality is judged on a canonical projection (nil == empty containers, time by UnixNano, errors by code+message, references by address+path)", "field domains are the small sets listed; other values are not covered"},
+	},
 	"C05": {
 		Parts:       []Part{{Harness: "c05"}},
 		Level:       "model_checking",
